@@ -323,6 +323,18 @@ func (o *c15Obs) After(w *wWorld, st *wStep) *kit.Viol {
 			}
 		}
 	}
+	// a P2P topic both participants of which have left for good is deleted with everything in it; the
+	// same name may be created afresh later and starts from message 1 again: the calls of the old one are history
+	for r := range o.started {
+		exists := false
+		for _, tr := range post.Topics {
+			exists = exists || tr.Name == r
+		}
+		if !exists && o.cur[r] == nil {
+			delete(o.started, r)
+			o.last[r] = 0
+		}
+	}
 	// new messages per topic in this step
 	added := map[string][]c15Msg{}
 	for r := range routes {
@@ -802,6 +814,13 @@ func (o *c15Obs) Final(w *wWorld) *kit.Viol {
 	w.tick(time.Duration(w.cfg.CallTimeout+6) * time.Second)
 	st := mem.A.Snapshot()
 	for r, seqs := range o.started {
+		exists := false
+		for _, tr := range st.Topics {
+			exists = exists || tr.Name == r
+		}
+		if !exists {
+			continue // both participants have left for good: the topic went with everything that was in it
+		}
 		msgs := c15Msgs(w, st, r)
 		for _, q := range seqs {
 			acc, end := 0, 0
